@@ -229,6 +229,9 @@ func (engine) Run(ci any) lib.Result {
 	for _, k := range c.Inj {
 		res.Tags = append(res.Tags, "inj:"+k)
 	}
+	if nCompile > 0 && okCompileAt >= 0 {
+		res.Tags = append(res.Tags, fmt.Sprintf("runnables-compared-in-structure:%d", min(first.nStruct, 3)))
+	}
 	seen := map[string]bool{}
 	for _, o := range first.obs {
 		if o.K == "err" && !seen[o.Cls] {
